@@ -20,7 +20,7 @@ class Message:
     def _check_args(self):
         if any(type(arg)(' ') in arg in arg for arg in self.args[:-1] if isinstance(arg, str)):
             raise Error('Space can only appear in the very last arg')
-        if any(type(arg)('\n') in arg for arg in self.args if isinstance(arg, str)):
+        if any('\n' in arg or '\r' in arg for arg in self.args if isinstance(arg, str)):
             raise Error('No newline allowed')
 
     @staticmethod
